@@ -27,12 +27,13 @@ reg("C09", level="exploration", overlay="world",
                  "trailing data is zeros/0xff/constant or a project-encoded NTS request (optionally with one flipped bit)",
                  "kernel socket behaviour is emulated by shim/vnet + shim/vunix"])
 
-reg("C06", level="model_checking", overlay="plain",
+reg("C06", level="model_checking", overlay="world",
     technique="stateless depth-first exploration of operation histories (deviation-bounded) on the real handler, step-relation oracle against the store's pre-state",
     level_text="Every history inside the stated bounds is executed on the real handleRequest/updateTXTimestamp (through verif hooks) and every transition is judged against the statement using the store's own pre-state; states/transitions are counted, traces are implementation runs.",
     budget={"quick": 150, "thorough": 1500}, workers={"quick": 16, "thorough": 16},
+    variants=[{"name": "main"}, {"name": "listener", "args": ["-vmode", "listener"]}],
     assumptions=["timestamps stay inside one NTP era", "alphabets are relative (collide / +1ns / +1s / -1s / other client's value), not all of int64",
-                 "the kernel transmit timestamp is an input of updateTXTimestamp (listener bookkeeping is covered by the listener-level scenario)"])
+                 "the kernel transmit timestamp is an input of updateTXTimestamp in the handler-level layer; the listener-level layer runs runIPServer with an emulated error queue"])
 
 reg("C07", level="model_checking", overlay="plain",
     technique="exhaustive small-capacity histories (tssCap re-valued to 3 via overlay) with canonical-state pruning + run against the shipped capacity + preemption-bounded lock-level schedules + free-running race-detector pass",
